@@ -113,6 +113,8 @@ def _tval_py(tv):
     from qupulse.expressions import ExpressionScalar
     if tv[0] == 'c':
         return float(F(tv[1]))
+    if len(tv) > 3 and tv[3]:
+        return ExpressionScalar(tv[3])      # round 6 family (j): the same affine function in another spelling ('t', 't/2 + 1')
     return ExpressionScalar('%r + %r*t' % (float(F(tv[1])), float(F(tv[2]))))
 
 
@@ -174,6 +176,8 @@ def _py_build(r, memo):
     elif k == 'func':
         coef = [float(F(x)) for x in r[1]]
         expr = ' + '.join('%r*t**%d' % (a, i) for i, a in enumerate(coef)) or '0'
+        if len(r) > 5 and r[5]:
+            expr = r[5]     # round 6 family (j): the same polynomial in another spelling ('t', 't*1', '2*t + 1', '(t + 1)*t')
         if len(r) > 4 and r[4]:
             w = W.FunctionWaveform.from_expression(ExpressionScalar(expr), _tm(r[2]), CH[r[3]])   # constant expression -> ConstantWaveform
         else:
@@ -330,6 +334,7 @@ def run_impl(case):
         per = []
         keep = []
         mutated = []
+        aliased = []
         for c in case['chans']:
             ch = CH[c]
             o = {'c': c}
@@ -352,6 +357,8 @@ def run_impl(case):
                 keep.append(res)
                 if not np.array_equal(ts, grid):
                     mutated.append(c)
+                if np.shares_memory(res, ts):
+                    aliased.append(c)                # round 6: the answer must not be a window onto the caller's time array
                 return _vals(res)
             g = _guard(gs_call)
             if g[0] not in ('ok', 'err'):
@@ -360,10 +367,23 @@ def run_impl(case):
             if ok_grid and ch in w.defined_channels and len(grid):
                 def us_call():
                     ts = grid.copy()
-                    res = _build_case(case).unsafe_sample(ch, ts)
+                    w2 = _build_case(case)
+                    res = w2.unsafe_sample(ch, ts)
                     if not np.array_equal(ts, grid):
                         mutated.append(c)
-                    return _vals(res)
+                    v = _vals(res)
+                    # round 6: the public call on a WRITEABLE array (what a caller normally has): the array
+                    # keeps its content and stays writeable, the answer is not a window onto it
+                    ts2 = grid.copy()
+                    try:
+                        res2 = w2.get_sampled(ch, ts2)
+                    except Exception:      # noqa  (an error of get_sampled is observed by gs_call above)
+                        res2 = None
+                    if not np.array_equal(ts2, grid) or not ts2.flags.writeable:
+                        mutated.append(c)
+                    if res2 is not None and np.shares_memory(res2, ts2):
+                        aliased.append(c)
+                    return v
                 g = _guard(us_call)
                 if g[0] not in ('ok', 'err'):
                     return {'crash': 'unsafe_sample: %s' % (g,)}
@@ -375,6 +395,8 @@ def run_impl(case):
                          'dur': vlib.frac_json(w.duration), 'per': per}}
         if mutated:
             out['mutated'] = mutated
+        if aliased:
+            out['aliased'] = sorted(set(aliased))
         if k == 'sample':
             api = _api_probes(w, per, np)
             if case.get('tdtype') and ok_grid and len(grid):
@@ -510,6 +532,7 @@ def _run_history(case, np):
     keep = []
     answers, fresh, queries = [], [], []
     mutated = False
+    aliased = False
     realloc = {'tried': 0, 'same_address': 0}
     last_freed = [None]
 
@@ -529,8 +552,10 @@ def _run_history(case, np):
         res = w.get_sampled(ch, ts, out) if out is not None else w.get_sampled(ch, ts)
         if out is not None and res is not out:
             raise RuntimeError('get_sampled did not return the supplied output array')
-        if not np.array_equal(ts, np.array(expect)):
+        if not np.array_equal(ts, np.array(expect)) or ts.flags.writeable != (not ro):
             raise _Mutated()
+        if out is None and np.shares_memory(res, ts):
+            raise _Aliased()
         v = _vals(res)
         keep.append(res.copy() if oslot is not None else res)   # results stay alive: __sampled_cache is a WeakValueDictionary
         return v
@@ -596,6 +621,9 @@ def _run_history(case, np):
         if g[0] == 'crash' and g[1].startswith('_Mutated'):
             mutated = True
             g = ('err', 'EType')
+        if g[0] == 'crash' and g[1].startswith('_Aliased'):
+            aliased = True
+            g = ('err', 'EType')
         if g[0] not in ('ok', 'err'):
             return {'crash': 'history call: %s' % (g,)}
         answers.append(_sres(g))
@@ -606,6 +634,8 @@ def _run_history(case, np):
         out['queries'] = queries
     if mutated:
         out['mutated'] = True
+    if aliased:
+        out['aliased'] = True
     if realloc['tried']:
         out['realloc'] = realloc
         _STATS['realloc_tried'] += realloc['tried']
@@ -614,6 +644,10 @@ def _run_history(case, np):
 
 
 class _Mutated(Exception):
+    pass
+
+
+class _Aliased(Exception):
     pass
 
 
@@ -1684,6 +1718,94 @@ def gen_eq_targets(rng):
     return res
 
 
+# ---------------------------------------------------------------------------------------------------------------------
+# round 6, family (j): blind class of seed C08-9 = *every expression the harness ever built was printed as a sum of float
+# coefficients times powers of t* ('0.0*t**0 + 1.0*t**1'): sympy keeps the float factor, so the lambdified function always
+# COMPUTES a new array.  An expression that IS its argument ('t', 't*1', 't+0', 't/1': all simplify to the symbol) makes the
+# lambdified function hand back the caller's time array itself; whoever forgets the copy then returns a window onto the
+# caller's array as samples, and every parent that post-processes samples in place (functors) writes into the time array.
+
+IDENT_SPELL = ['t', 't*1', 't+0', 't/1', '1*t', 't**1']
+OTHER_SPELL = [(['1', '2'], '2*t + 1'), (['1/4', '1/2'], 't/2 + 1/4'), (['0', '1', '1'], '(t + 1)*t'), (['0', '-1'], '-t'),
+               (['0', '2'], 't + t'), (['-1/2', '1'], 't - 1/2'), (['0', '1', '0'], 't + 0*t**2')]
+
+
+def gen_spell_targets(rng, tier):
+    """-> [(recipe, duration, channels, tag)]: an identity ramp (and other spellings of polynomials whose meaning the model
+    knows from the coefficients) at the top and below EVERY class of parent, in particular the ones that work in place on
+    their child's samples; time dependent transformation values spelled 't' too.  Deterministic: wrapper x spelling round
+    robin (quick: every wrapper once with an identity spelling + once with another polynomial; thorough: every pair)."""
+    out = []
+    d = F(1)
+
+    def wrappers(leaf, c, c2, opt):
+        other = lambda ch, dd=d: nonconst_leaf(rng, ch, dd)   # noqa
+        tt = lambda a, b, text: ['t', a, b, text]             # noqa
+        return [
+            ('none', leaf(c), d, [c]),
+            ('neg', ['neg', leaf(c)], d, [c]),
+            ('functor-neg', ['functor', opt, leaf(c), [[c, 'neg']]], d, [c]),
+            ('functor-abs', ['functor', opt, leaf(c), [[c, 'abs']]], d, [c]),
+            ('functor-pos', ['functor', opt, leaf(c), [[c, 'pos']]], d, [c]),
+            ('neg-neg', ['neg', ['neg', leaf(c)]], d, [c]),
+            ('multi-of-neg', ['multi', opt, [['neg', leaf(c)], other(c2)]], d, [c, c2]),
+            ('neg-of-multi', ['neg', ['multi', opt, [leaf(c), other(c2)]]], d, [c, c2]),
+            ('functor-of-multi', ['functor', opt, ['multi', opt, [other(c2), leaf(c)]], [[c, 'neg'], [c2, 'abs']]], d, [c, c2]),
+            ('two-ramps', ['neg', ['multi', opt, [leaf(c), leaf(c2)]]], d, [c, c2]),
+            ('subset-of-neg', ['subset', ['multi', opt, [['neg', leaf(c)], other(c2)]], [c]], d, [c]),
+            ('neg-of-subset', ['neg', ['subset', ['multi', opt, [leaf(c), other(c2)]], [c]]], d, [c]),
+            ('getsubset-of-neg', ['getsubset', ['neg', ['multi', opt, [leaf(c), other(c2)]]], [c]], d, [c]),
+            ('neg-of-trans-id', ['neg', ['trans', False, leaf(c), ['id']]], d, [c]),
+            ('neg-of-trans-scale', ['neg', ['trans', opt, leaf(c), ['scale', [[c, ['c', '2']]]]]], d, [c]),
+            ('neg-of-trans-offset-t', ['neg', ['trans', opt, leaf(c), ['offset', [[c, tt('0', '1', 't')]]]]], d, [c]),
+            ('neg-of-parallel-t', ['neg', ['trans', opt, other(c2), ['parallel', [[c, tt('0', '1', rng.choice(IDENT_SPELL))]]]]], d, [c, c2]),
+            ('parallel-t', ['trans', opt, leaf(c), ['parallel', [[c2, tt('0', '1', rng.choice(IDENT_SPELL))]]]], d, [c, c2]),
+            ('scale-t', ['neg', ['trans', opt, other(c), ['scale', [[c, tt('0', '1', 't')]]]]], d, [c]),
+            ('trans-of-neg', ['trans', opt, ['neg', leaf(c)], ['offset', [[c, ['c', '1/2']]]]], d, [c]),
+            ('arith-lhs', ['neg', ['arith', opt, leaf(c), rng.choice('+-'), other(c)]], d, [c]),
+            ('arith-rhs', ['arith', opt, other(c), '-', ['neg', leaf(c)]], d, [c]),
+            ('arith-excl', ['neg', ['arith', opt, leaf(c), '+', other(c2)]], d, [c, c2]),
+            ('seq', ['neg', ['seq', opt, [leaf(c), leaf(c)]]], 2 * d, [c]),
+            ('seq-of-neg', ['seq', opt, [['neg', leaf(c)], other(c)]], 2 * d, [c]),
+            ('rep', ['neg', ['rep', opt, leaf(c), 2]], 2 * d, [c]),
+            ('rep1-of-neg', ['rep', opt, ['neg', leaf(c)], 1], d, [c]),
+            ('rev-of-neg', [rng.choice(REV), ['neg', leaf(c)]], d, [c]),
+            ('neg-of-rev', ['neg', [rng.choice(REV), leaf(c)]], d, [c]),
+            ('single-multi', ['neg', ['multi', False, [leaf(c)]]], d, [c]),
+            ('single-seq', ['neg', ['seq', False, [leaf(c)]]], d, [c]),
+        ]
+    n_wrap = len(wrappers(lambda ch: ['const', '1', '0', ch], 1, 2, False))
+    pairs = []
+    if tier == 'quick':
+        for i in range(n_wrap):
+            pairs.append((i, ('ident', IDENT_SPELL[i % len(IDENT_SPELL)])))
+        for i in range(0, n_wrap, 3):
+            pairs.append((i, ('other', OTHER_SPELL[(i // 3) % len(OTHER_SPELL)])))
+    else:
+        for i in range(n_wrap):
+            pairs += [(i, ('ident', sp)) for sp in IDENT_SPELL] + [(i, ('other', sp)) for sp in OTHER_SPELL]
+    for i, (what, sp) in pairs:
+        c, c2 = rng.sample([0, 1, 2, 3, 4], 2)
+        opt = rng.random() < 0.5
+        if what == 'ident':
+            leaf = lambda ch, sp=sp: ['func', ['0', '1'], fs(d), ch, False, sp]          # noqa
+        else:
+            leaf = lambda ch, sp=sp: ['func', list(sp[0]), fs(d), ch, False, sp[1]]      # noqa
+        tag, r, dur, chans = wrappers(leaf, c, c2, opt)[i]
+        out.append((r, dur, sorted(chans), 'spell:%s/%s' % (tag, sp if what == 'ident' else sp[1])))
+    return out
+
+
+def render_history(rng, dur, chans, ro):
+    """what rendering does: ONE time array, one get_sampled call per channel, then the first channel again, then the same
+    through supplied result arrays and once more without; off-grid times and the on-grid start"""
+    cs = sorted(chans)
+    g = [fs(t) for t in sorted(set(off_grid(rng, dur, 3)) | {F(0)})]
+    ops = [['set', 0, g]] + [['call', c, 0, False] for c in cs] + [['call', cs[0], 0, False]]
+    ops += [['call', c, 0, True] for c in cs[::-1]] + [['call', cs[-1], 0, False], ['tmp', cs[0], g, False]]
+    return {'kind': 'hist', 'ops': ops, 'dur': fs(dur), 'arr': 'plain', 'ro': ro, 'style': 'render'}
+
+
 def malformed_recipes(rng):
     c = lambda d, v, ch: ['const', fs(d), fs(v), ch]   # noqa
     t = lambda ch, ents, val=True: ['table', val, ch, [[fs(a), fs(b), i] for a, b, i in ents]]   # noqa
@@ -2078,6 +2200,14 @@ def gen_cases(rng, tier, ctx):
     # ---- round 5 family (i): equality pairs that differ in exactly one slot, every class ----
     for _ in range(1 if tier == 'quick' else 8):
         cases += gen_eq_targets(rng)
+    # ---- round 6 family (j): expressions that ARE their argument / other spellings, below every class of parent ----
+    for r, dur, chans, tag in gen_spell_targets(rng, tier):
+        gs = grids_for(rng, dur)
+        for gk in ('off', 'end') if tier == 'quick' else ('off', 'on', 'end'):
+            cases.append({'kind': 'sample', 'grid_kind': gk, 'r': r, 'grid': [fs(t) for t in gs[gk]], 'chans': sorted(chans),
+                          'family': tag})
+        for ro in (False, True) if tier != 'quick' else (False,):     # writeable arrays: what a caller normally has
+            cases.append(dict(render_history(rng, dur, chans, ro), r=r, family=tag))
     return cases
 
 
@@ -2200,7 +2330,7 @@ def histogram_keys(case, obs):
     if case.get('sparse'):
         keys.append('sparse:' + case['sparse'])
     if case.get('family'):
-        keys.append('family:' + case['family'].split('/')[0].split(':')[0] if case['family'].startswith(('repr:', 'eq1:'))
+        keys.append('family:' + case['family'].split('/')[0].split(':')[0] if case['family'].startswith(('repr:', 'eq1:', 'spell:'))
                     else 'family:' + case['family'].split('/')[0])
     if case.get('tdtype'):
         keys.append('time-array-dtype:' + case['tdtype'])
@@ -2450,6 +2580,8 @@ def py_spec(case, obs):
         _EXC_PENDING.setdefault(_exc_key(case, obs), (case, obs))     # for classify: evaluated in one batch
     if obs.get('mutated'):
         return 'the sampler changed the content of the time array it was given'
+    if obs.get('aliased'):
+        return 'the samples returned by get_sampled share memory with the time array the caller handed over'
     if obs.get('api'):
         return 'waveform API contract: ' + '; '.join(obs['api'][:3])
     if case['kind'] == 'eq' and obs.get('built') and obs.get('eq') and obs.get('same') is False:
